@@ -3,8 +3,13 @@ package main
 import (
 	"bufio"
 	"encoding/json"
+	"fmt"
+	"go/scanner"
+	"go/token"
 	"math/rand"
 	"os"
+	"os/exec"
+	"path/filepath"
 	"strings"
 
 	"gopkg.in/yaml.v3"
@@ -108,6 +113,67 @@ func parseRec(c *Ctx, text string, claim []string, sub string) Rec {
 		rec["items"] = projectTree(t)
 	}
 	return rec
+}
+
+// regenRec: "the parser shipped is the one goyacc generates from that grammar file". The goyacc the module pins (`go tool
+// goyacc`, as in the go:generate line of input/ast/chords.go) is run on the working tree's chords.y with its output in the
+// scratch directory, and the Go token sequences (comments and layout ignored) of the two parsers are compared.
+func regenRec(c *Ctx) Rec {
+	rec := Rec{"kind": "regen", "sub": "regen", "ran": false, "same": false, "ntok": 0, "firstDiff": -1, "why": ""}
+	dir := filepath.Join(c.Repo, "input", "ast")
+	shipped, err := os.ReadFile(filepath.Join(dir, "chords_goyacc_generated.go"))
+	if err != nil {
+		rec["why"] = "no shipped parser: " + err.Error()
+		return rec
+	}
+	out := c.writeTemp(fmt.Sprintf("regen%d.go", nextID()), "")
+	defer os.Remove(out)
+	defer os.Remove(out + ".output")
+	cmd := exec.Command("go", "tool", "goyacc", "-o", out, "-v", out+".output", "chords.y")
+	cmd.Dir = dir
+	cmd.Env = append(os.Environ(), "GOFLAGS=-mod=mod", "GOPROXY=off")
+	if b, err := cmd.CombinedOutput(); err != nil {
+		rec["why"] = "goyacc could not be run: " + err.Error() + ": " + string(b)
+		return rec
+	}
+	fresh, err := os.ReadFile(out)
+	if err != nil || len(fresh) == 0 {
+		rec["why"] = "goyacc wrote nothing"
+		return rec
+	}
+	a, b := goTokens(shipped), goTokens(fresh)
+	rec["ran"], rec["ntok"] = true, len(a)
+	same := len(a) == len(b)
+	for i := 0; i < len(a) && i < len(b); i++ {
+		if a[i] != b[i] {
+			same = false
+			rec["firstDiff"] = i
+			rec["why"] = fmt.Sprintf("token %d: shipped %q, regenerated %q", i, a[i], b[i])
+			break
+		}
+	}
+	if !same && rec["why"] == "" {
+		rec["why"] = fmt.Sprintf("%d tokens shipped, %d regenerated", len(a), len(b))
+	}
+	rec["same"] = same
+	return rec
+}
+
+func goTokens(src []byte) []string {
+	fset := token.NewFileSet()
+	var sc scanner.Scanner
+	sc.Init(fset.AddFile("x.go", -1, len(src)), src, nil, 0) // comments skipped
+	out := []string{}
+	for {
+		_, tok, lit := sc.Scan()
+		if tok == token.EOF {
+			return out
+		}
+		if tok == token.SEMICOLON && lit == "\n" {
+			continue // automatic semicolons depend on the layout
+		}
+		out = append(out, tok.String()+" "+lit)
+	}
 }
 
 var metaTexts = []string{"key", "Am", "txt", "hello world", "bpm", "120", "a;b", "x y ", "vel", "ff", "mtr", "3/4x", "é♭", "_[]", "大好き", "Život", "日本語", "Ľ", "x\x07y"}
@@ -278,6 +344,7 @@ func init() {
 				}
 				cases = append(cases, Case{"cmd": "strings", "text": sb.String()})
 			}
+			cases = append(cases, Case{"cmd": "regen"})
 			cases = append(cases, Case{"cmd": "strings", "text": ""})
 			for _, t := range []string{"C[1] D[1]\x1a\r\ngarbage", "C[1] \x07 E[1] F[1]", "C[1]\x00", "C[1]\x1bD[1]", "\x1aC[1]", "C[1]{a=b\x00c}"} {
 				cases = append(cases, Case{"cmd": "strings", "text": t})
@@ -302,6 +369,9 @@ func init() {
 			return cases
 		},
 		Exec: func(c *Ctx, k Case) []Rec {
+			if cs(k, "cmd") == "regen" {
+				return []Rec{regenRec(c)}
+			}
 			if cs(k, "cmd") == "long" {
 				base, reps, suffix := cs(k, "base"), ci(k, "reps"), cs(k, "suffix")
 				text := strings.Repeat(base+"\n", reps) + suffix // newline: a sentence may end inside a comment
@@ -323,12 +393,20 @@ func init() {
 		},
 		Extra: func(recs []Rec) map[string]any {
 			acc := 0
+			regen := "not run"
 			for _, r := range recs {
 				if r["accepted"] == true {
 					acc++
 				}
+				if r["kind"] == "regen" {
+					if r["ran"] == true {
+						regen = fmt.Sprintf("goyacc re-run on chords.y: %v tokens, identical to the shipped parser: %v %v", r["ntok"], r["same"], r["why"])
+					} else {
+						regen = fmt.Sprintf("goyacc not run: %v", r["why"])
+					}
+				}
 			}
-			return map[string]any{"accepted": acc, "rejected": len(recs) - acc}
+			return map[string]any{"accepted": acc, "rejected": len(recs) - acc, "regeneration": regen}
 		},
 	})
 }
